@@ -3,6 +3,7 @@ package rules
 
 import (
 	"sort"
+	"strings"
 
 	"fpcheck/internal/core"
 )
@@ -12,6 +13,55 @@ type Prop struct {
 	Explanation string
 	Trusted     []string
 	Run         func(c *core.Ctx)
+	// Relies: rule instances of other properties this property's behaviour rests on (a shared helper or a component it
+	// is built from). They are decided again as part of this property's check, under the rule id "dep:<prop>/<rule>".
+	Relies []Dep
+}
+
+// Dep names rule instances of another property: all instances of Rule whose key starts with one of Keys (all when empty).
+type Dep struct {
+	Prop, Rule string
+	Keys       []string
+	Floor      int // instances that must be found (0 for rules that have no instance on the unchanged tree)
+	Why        string
+}
+
+// RunAll runs the property's own rules and then the rule instances it relies on.
+func RunAll(r *Prop, c *core.Ctx, verifDir string) {
+	r.Run(c)
+	subs := map[string]*core.Ctx{}
+	for _, d := range r.Relies {
+		src := Get(d.Prop)
+		if src == nil {
+			panic("unknown dependency " + d.Prop)
+		}
+		sub := subs[d.Prop]
+		if sub == nil {
+			sub = core.NewCtx(d.Prop, c.Tier, c.P)
+			src.Run(sub)
+			subs[d.Prop] = sub
+		}
+		ruleIDs := []string{d.Rule}
+		if d.Rule == "*" {
+			ruleIDs = sub.RuleIDs()
+		}
+		for _, rid := range ruleIDs {
+			as := "dep:" + d.Prop + "/" + rid
+			c.Rule(as, "relied-on rule of "+d.Prop+" ("+d.Why+"): "+sub.RuleDoc(rid), d.Floor)
+			keys := d.Keys
+			c.Import(sub, rid, as, func(key string) bool {
+				if len(keys) == 0 {
+					return true
+				}
+				for _, k := range keys {
+					if strings.HasPrefix(key, k) {
+						return true
+					}
+				}
+				return false
+			}, verifDir)
+		}
+	}
 }
 
 var registry = map[string]*Prop{}
